@@ -26,6 +26,7 @@ for d in $(ls -d "$HERE"/seeded/*"${ONLY:-}"*/ | xargs -n1 basename); do
     C17-r5-1) extra="C01";;
     C02-r6-1) extra="C01 C03";; C06-r6-1|C06-r6-2) extra="C08";; C09-r6-2) extra="C08";; C13-r6-1) extra="C12 C14";; C16-r6-1) extra="C01";;
     C16-r6-2) extra="C15";; C07-r6-2) extra="C15";; C15-r6-2) extra="C07";;
+    C10-r7-1) extra="C11";;
   esac
   echo "$d $id $extra" | sed 's/ *$//' >> "$OUT.jobs"      # (xargs -L continues a line that ends in a blank)
 done
